@@ -58,10 +58,16 @@ impl TypeScorerBoundaryTag {
             let weight = PositionalWeightWithTag::with_boundary(-i16::from(window_size), d.weights);
             merger.add(d.ngram, weight);
         }
-        let mut tag_weight = vec![
-            vec![SerializableHashMap::default(); usize::from(window_size) + 1];
-            tag_ngram_model.len()
-        ];
+        // Relative positions are not bounded by the window size (the trainer derives them from
+        // the n-gram size), so the table must cover every position that occurs.
+        let n_positions = tag_ngram_model
+            .iter()
+            .flat_map(|m| &m.0)
+            .flat_map(|d| &d.weights)
+            .map(|w| usize::from(w.rel_position) + 1)
+            .fold(usize::from(window_size) + 1, usize::max);
+        let mut tag_weight =
+            vec![vec![SerializableHashMap::default(); n_positions]; tag_ngram_model.len()];
         for (i, tag_model) in tag_ngram_model.into_iter().enumerate() {
             for d in tag_model.0 {
                 for w in d.weights {
